@@ -153,6 +153,27 @@ def _int_patch(val=0, *rest, **kw):
     return int(val, *rest, **kw)  # from this frame: native
 
 
+def _install_dateutil_shim():
+    """boundary shim: dateutil.parser.parse runs natively on the (pinned) text; CrossHair's pure-Python datetime
+    classes do not interoperate with dateutil's tzinfo objects."""
+    try:
+        import dateutil.parser as dp
+    except ImportError:
+        return
+    real = dp.parse
+
+    def _parse_shim(timestr, *a, **kw):
+        from .arrstr import pin as _pin
+
+        ts = _pin(timestr, "dateutil.parser.parse") if isinstance(timestr, AnySymbolicStr) else timestr
+        ra = tuple(deep_realize(x) for x in a)
+        rk = {k: deep_realize(v) for k, v in kw.items()}
+        with NoTracing():
+            return real(ts, *ra, **rk)
+
+    _core._PATCH_REGISTRATIONS[real] = _parse_shim
+
+
 _done = False
 
 
@@ -164,6 +185,7 @@ def install():
 
     _core._PATCH_REGISTRATIONS[str.__mod__] = _percent
     _core._PATCH_REGISTRATIONS[format] = _format
+    _install_dateutil_shim()
     _core._PATCH_REGISTRATIONS[str] = _str_patch
     _core._PATCH_REGISTRATIONS[int] = _int_patch
     for name in ("startswith", "endswith", "__contains__", "replace", "split", "find", "partition"):
